@@ -57,6 +57,10 @@ type Chan struct {
 	Sticky   bool // the SQL thread hits the same error again whenever it is started (until the channel is re-created)
 }
 
+// LagScale: unit of lags in the Gallina rendering (1 = seconds, 1000 = milliseconds); set by a harness that
+// generates fractional lags, together with the thresholds it renders
+var LagScale int64 = 1
+
 type Node struct {
 	ApplyHold bool // the SQL thread is busy (a long transaction): it applies nothing for now
 	Host    string
@@ -73,6 +77,7 @@ type Node struct {
 	Flush, SyncBinlog    int
 	StuckCommits         int    // commits waiting for a semi-sync ACK
 	Lag                  *int64 // Seconds_Behind_Source when both threads run (nil -> 0)
+	LagMilli             int64  // fractional part of the reported lag in thousandths (a replication_lag source with sub-second resolution)
 	StartedAt            int64  // unix seconds of last mysqld start
 	Binlogs              [][2]string
 	ReadFile             string
@@ -753,7 +758,11 @@ func (w *World) apply(n *Node, sess *session, q, kind, arg string) (result, stri
 				l = *n.Lag
 			}
 			lag = sp(fmt.Sprint(l))
-			lagGal = Some(Z(l))
+			lagGal = Some(Z(l * LagScale))
+			if n.LagMilli != 0 {
+				lag = sp(fmt.Sprintf("%d.%03d", l, n.LagMilli))
+				lagGal = Some(Z(l*LagScale + n.LagMilli*LagScale/1000))
+			}
 		}
 		file := n.ReadFile
 		if file == "" {
